@@ -74,4 +74,16 @@ def SelState.run (cfg : Cfg) : SelState → List SelOp → List SelOut
   | _, [] => []
   | s, op :: rest => s.out cfg op :: SelState.run cfg (s.next op) rest
 
+/-- **Specification of the selector's input** (what `Tahoe2ServerSelector.get_shareholders` must have
+told the selector when it asks for the first plan): every server of the grid was added, the
+read-only ones were demoted, and every share found on disk was booked under the server that
+answered with it.  `held` is the ground truth `server -> shares on disk`. -/
+def specHistory (nsrv : Nat) (ro : List Nat) (held : SetMap) : List SelOp :=
+  (List.range nsrv).map SelOp.addPeer ++ ro.map SelOp.markReadonly ++
+    (held.flatMap (fun e => e.2.map (fun sh => (e.1, sh)))).map (fun x => SelOp.addPeerWithShare x.1 x.2)
+
+/-- the state the selector is in when it was told exactly the ground truth -/
+def toldState (total nsrv : Nat) (ro : List Nat) (held : SetMap) : SelState :=
+  (SelState.init total).after (specHistory nsrv ro held)
+
 end Tahoe.Happiness
